@@ -56,7 +56,7 @@ def run(ctx):
                                   "expect": expect_str(D(y, m, d), period="day"), "stratum": "full/abs"})
                     cases.append({"s": "%d %s %s 10:30" % (d, MONTHS[m - 1], ys), "langs": ["en"], "settings": dict(st, RETURN_TIME_AS_PERIOD=True),
                                   "expect": expect_str(D(y, m, d, 10, 30), period="time"), "stratum": "full+time/abs"})
-    res = decide(ctx, cases, model_share=1.0 if tier == "quick" else 0.3)
+    res = decide(ctx, cases, model_share=1.0)
     res["assumptions"] = ["the system clock does not cross midnight during the run (custom-format 'current' day)",
                           "English month names are translated to themselves by the `en` locale (checked by the model tie)"]
     return res
